@@ -589,8 +589,36 @@ def success_sets_executed(ctx):
                     subs[v] = R
             if not subs:
                 subs = {"Ok": Rok}
+            elif Rok:
+                for v in ("Skipped", "Completed"):
+                    subs.setdefault(v, set())    # an outcome without blocks of its own (or-pattern): judged by the paths of the Ok arm that are open to it
             for v, R in subs.items():
                 calls = [c for c in calls_to_role(r, a, setters, R) if (is_awaited(a, c[0]) or ctx.f.coroutine_of(callee_base(c[1])) is None) and _must_pass(a, R, c[0])]
+                if not calls and Rok and R < Rok and v != "Ok":
+                    # the outcome's own blocks only log (`Ok(result @ (Skipped | Completed)) => { if matches!(result, Skipped) { log } notify }`): what matters is
+                    # that every way through the Ok arm that this outcome can take (edges of the other outcomes left out) goes through the notifier
+                    allc = [c for c in calls_to_role(r, a, setters, Rok) if is_awaited(a, c[0]) or ctx.f.coroutine_of(callee_base(c[1])) is None]
+                    tg = {c[0] for c in allc}
+                    def open_to(e):
+                        l = e.label
+                        return not (l is not None and l[0] == "variant" and l[1] and path_ends(l[1], "IncrementalRunResult") and v not in l[2])
+                    start = min(Rok)
+                    seen, st, leak = {start}, [start], False
+                    while st and not leak:
+                        x = st.pop()
+                        if x in tg:
+                            continue
+                        for e in a.succ.get(x, ()):
+                            if not open_to(e):
+                                continue
+                            if e.dst not in Rok:
+                                leak = True
+                                break
+                            if e.dst not in seen:
+                                seen.add(e.dst)
+                                st.append(e.dst)
+                    if tg and not leak:
+                        calls = allc
                 ctx.check(bool(calls), f"{lab}/{what}.{v}", [site(a, c[0]) for c in calls] or [a.loc(min(R)) if R else a.loc()],
                           f"the `{v}` outcome does not go through the notifier that records the target as executed: a requester registering afterwards is never acknowledged")
 
